@@ -173,19 +173,19 @@ func (p Place) MarshalJSON() ([]byte, error) {
 		notEmpty = JSONWriteObjectValue(&b, *o)
 		return nil
 	})
-	if p.Accuracy > 0 {
+	if p.Accuracy != 0 {
 		notEmpty = JSONWriteFloatProp(&b, "accuracy", p.Accuracy) || notEmpty
 	}
-	if p.Altitude > 0 {
+	if p.Altitude != 0 {
 		notEmpty = JSONWriteFloatProp(&b, "altitude", p.Altitude) || notEmpty
 	}
-	if p.Latitude > 0 {
+	if p.Latitude != 0 {
 		notEmpty = JSONWriteFloatProp(&b, "latitude", p.Latitude) || notEmpty
 	}
-	if p.Longitude > 0 {
+	if p.Longitude != 0 {
 		notEmpty = JSONWriteFloatProp(&b, "longitude", p.Longitude) || notEmpty
 	}
-	if p.Radius > 0 {
+	if p.Radius != 0 {
 		notEmpty = JSONWriteIntProp(&b, "radius", p.Radius) || notEmpty
 	}
 	if len(p.Units) > 0 {
